@@ -26,8 +26,8 @@ def run(R):
     # validators run inside the pipeline's tasks. User validators are assumed not to raise; the library's verifiers are code of this
     # repository: for every SignaturePtrs a decoder can hand them (an absent SignatureValue element is `signature_value_buf = None`;
     # the covered-part list is always a list after a parse) they must answer, not fail
-    R.ob('C06.ESC.5', 'the library\'s signature verifiers answer False for a packet without SignatureValue instead of raising '
-                      '(a validator that raises ends the task completing the pending Interest with an unhandled error)')
+    R.ob('C06.ESC.5', 'the library\'s signature verifiers answer False for a packet without SignatureValue, or whose key is of another kind than '
+                      'its signature type claims, instead of raising (a validator that raises ends the task completing the pending Interest with an unhandled error)')
     from ..esc import esc_of
     E_ = esc_of(P)
     KV = 'ndn.security.validator.known_key_validator'
@@ -43,6 +43,22 @@ def run(R):
             R.fail('C06.ESC.5', inst, q, 'def ' + q.rsplit('.', 1)[1], f'{bad5[0][1].split(" ", 1)[1] if " " in bad5[0][1] else bad5[0][1]}: a Data / Interest that has a '
                    'SignatureInfo but no SignatureValue element makes the verifier raise TypeError instead of returning False (repro notes/repro/e17.py)',
                    f'{cxv.f.path}:{bad5[0][0]}')
+        else:
+            R.ok('C06.ESC.5', inst, cxv.f.loc())
+    # ... and the functions that pick the key for them: a key of another kind than the signature type claims (the packet chooses both the
+    # type and the key locator) must be a rejection, not a ValueError out of the key import
+    pick = sorted(q for q in P.funcs if (q.startswith(KV + '.') and q.endswith('Checker._verify')) or q == 'ndn.security.validator.cascade_validator.CascadeChecker._verify_sig')
+    R.need(len(pick) >= 4, f'only {len(pick)} key-selecting verifier functions found')
+    for q in pick:
+        S6 = E_.analyze(q, fine=True)
+        R.touch(P.func(q))
+        cxv = ctx(R, q)
+        bad6 = sorted((line, desc) for (exc, (line, desc)) in S6.raises if exc == 'ValueError')
+        inst = f'{q} :: key of another kind'
+        if bad6:
+            R.fail('C06.ESC.5', inst, q, 'def ' + q.rsplit('.', 1)[1], f'{bad6[0][1].split(" ", 1)[1] if " " in bad6[0][1] else bad6[0][1]} raises ValueError when the key the '
+                   'packet points to is not of the kind its signature type claims: the validator fails inside the pipeline task instead of rejecting the packet '
+                   '(repro notes/repro/e20.py)', f'{cxv.f.path}:{bad6[0][0]}')
         else:
             R.ok('C06.ESC.5', inst, cxv.f.loc())
     # ---------------------------------------------------------------- ESC.4  end of stream
